@@ -130,7 +130,7 @@ class C15(core.Check):
         "optionally with a cycle, a missing file, a directory in place of a file or an injected EIO/EACCES at "
         "the k-th include open/read, loaded 1-3 times through open / load(named, relative-named, StringIO) / "
         "loads / a reused Parser with the simulated working directory unrelated to the tree and changing "
-        "between calls; compared with the flatten() model (result, error kind, exact open sequence). "
+        "between calls, and with the tree itself changing between calls (a missing file restored, an include file edited); compared with the flatten() model (result, error kind, exact open sequence). "
         "distinct = digest of (files, steps, faults); non-trivial = the tree has depth >= 2 or a fault/cycle."
     )
     assumptions = [
@@ -294,6 +294,27 @@ class C15(core.Check):
         faults = []
         special = None
         inc_files = sorted(state["files"])
+        if k.random() < 0.15:
+            # the same file included twice from one place, spelled identically (two identical STYLEs, say)
+            holders = [p_ for p_ in sorted(files) if any(INC_RE.match(l) for l in files[p_].split("\n"))]
+            if holders:
+                p_ = r.choice(holders)
+                nl_ = "\r\n" if "\r\n" in files[p_] else "\n"
+                ls_ = files[p_].split(nl_)
+                i_ = r.choice([i for i, l in enumerate(ls_) if INC_RE.match(l)])
+                ls_.insert(i_ + 1, ls_[i_])
+                files[p_] = nl_.join(ls_)
+        if k.random() < 0.3 and inc_files:
+            # text that merely CONTAINS the letters "include" (never at the start of a line): the usual OWS metadata
+            # keys, a name, a trailing comment - in the deepest files as anywhere else
+            for p_ in r.sample(inc_files, min(len(inc_files), r.choice([1, 3, len(inc_files), len(inc_files)]))):
+                nl_ = "\r\n" if "\r\n" in files[p_] else "\n"
+                ls_ = files[p_].split(nl_)
+                cand = [i for i, l in enumerate(ls_) if l.strip() and not INC_RE.match(l) and "#" not in l and '"' in l and l.count('"') == 2]
+                if cand:
+                    i_ = r.choice(cand)
+                    ls_[i_] = ls_[i_] + r.choice(["  # see gml_include_items", " # include_test", "  # wms_include_items"])
+                    files[p_] = nl_.join(ls_)
         if expand and inc_files and k.random() < 0.4:
             f = s("faults")
             special = f.choice(["missing", "missing", "isdir", "cycle", "selfcycle", "shared_first", "shared_first", "eio_open", "eacces_open", "eio_read"])
